@@ -118,8 +118,8 @@ async def direct(w: ReloadWorld, row: dict) -> None:
     w.do_reload(new, row['fault'], row['changed'], row.get('also', 'none'))
     second = row.get('second', 'none')
     # the second reload: the good new configuration after a failed one, back to the old configuration after a successful one
-    again = new if row['fault'] != 'none' else {'k1': row['old1'], w.second_key: row['old2']}
-    if second == 'atonce':
+    again = new if row['fault'] != 'none' else {'k1': row['old1'], w.second_key: row['new2'] if second == 'atonce-half' else row['old2']}
+    if second in ('atonce', 'atonce-half'):
         w.do_reload(again, 'none', False)
     await asyncio.sleep(0.3)
     # (re-)establish until the session stays: a reload that changes the neighbour tears the next session down once (6/3)
